@@ -37,7 +37,7 @@ def parse_spec(path):
                 harness=None, defines={}, cbmc_flags=[], timeout={}, mode='proof', unwind=None,
                 contracts={}, replace_extra={}, loops=[], externals={}, assumptions=[], mutants=[],
                 allow_nobody=[], includes=[], covers=[], variants=[], not_decided=[], path=path, goto_flags=[],
-                memlimit_gb=None, object_bits=None, instrument='dfcc')
+                memlimit_gb=None, object_bits=None, instrument='dfcc', pins={})
     cur = None
     buf = []
 
@@ -79,7 +79,12 @@ def parse_spec(path):
             elif key == 'enforce':
                 spec['enforce'] = arg
             elif key == 'replace':
-                spec['replace'] += arg.split()
+                for tok in arg.split():
+                    if '@' in tok:
+                        nm, pin = tok.split('@', 1)
+                        spec['pins'][nm] = pin
+                        tok = nm
+                    spec['replace'].append(tok)
             elif key == 'harness':
                 spec['harness'] = arg
             elif key == 'defines':
@@ -165,25 +170,41 @@ def registry():
     if _registry is not None:
         return _registry
     reg = {}
-    for fn in sorted(os.listdir(CONTRACT_DIR)):
-        if not fn.endswith('.spec'):
-            continue
-        sp = parse_spec(os.path.join(CONTRACT_DIR, fn))
-        for f, c in sp['contracts'].items():
-            src = c['file'] or (sp['sources'][0] if sp['sources'] else None)
-            reg[f] = dict(kind='repo', file=src, text=c['text'],
-                          extra=sp['replace_extra'].get(f, ''), spec=fn,
-                          proved=(sp['enforce'] == f))
-        for f, c in sp['externals'].items():
-            reg[f] = dict(kind='external', decl=c['decl'], text=c['text'], extra='', spec=fn, proved=False)
-    # a function whose contract lives in one spec may be *enforced* by another unit's spec
+    specs = []
     for fn in sorted(os.listdir(CONTRACT_DIR)):
         if fn.endswith('.spec'):
-            sp = parse_spec(os.path.join(CONTRACT_DIR, fn))
-            if sp['enforce'] in reg and sp['enforce'] not in sp['contracts']:
-                reg[sp['enforce']]['proved'] = True
+            specs.append((fn, parse_spec(os.path.join(CONTRACT_DIR, fn))))
+    enforced_somewhere = set(sp['enforce'] for _, sp in specs if sp['enforce'] and sp['harness'])
+    for fn, sp in specs:
+        for f, c in sp['contracts'].items():
+            src = c['file'] or (sp['sources'][0] if sp['sources'] else None)
+            ent = dict(kind='repo', file=src, text=c['text'], extra=sp['replace_extra'].get(f, ''), spec=fn,
+                       proved=(f in enforced_somewhere), owner_enforces=(sp['enforce'] == f))
+            # precedence: the spec of the unit that ENFORCES f owns f's contract; otherwise first one wins
+            if f not in reg or (ent['owner_enforces'] and not reg[f].get('owner_enforces')):
+                reg[f] = ent
+        if not sp['harness']:
+            # @@external sections are exported only from harness-less collections (externals.spec, assumed.spec);
+            # an @@external inside a unit's own spec is private to that unit
+            for f, c in sp['externals'].items():
+                if f not in reg:
+                    reg[f] = dict(kind='external', decl=c['decl'], text=c['text'], extra='', spec=fn, proved=False)
     _registry = reg
     return reg
+
+
+def pinned(fn, specname):
+    """contract of fn taken from a named spec file ('name@assumed' in @@replace): used while a proved contract
+    is not yet call-site compatible; reported as an assumed contract in evidence"""
+    sp = parse_spec(os.path.join(CONTRACT_DIR, specname + '.spec'))
+    if fn in sp['contracts']:
+        c = sp['contracts'][fn]
+        return dict(kind='repo', file=c['file'] or (sp['sources'][0] if sp['sources'] else None), text=c['text'],
+                    extra=sp['replace_extra'].get(fn, ''))
+    if fn in sp['externals']:
+        c = sp['externals'][fn]
+        return dict(kind='external', decl=c['decl'], text=c['text'], extra='')
+    raise Undecided('pinned contract %s@%s not found' % (fn, specname))
 
 
 # ---------------------------------------------------------------- helpers
@@ -292,6 +313,11 @@ def build_unit(spec, tier, workdir, repo_root=None, variant_defs=(), extra_defs=
             kind, cfile, decl = 'repo', spec['contracts'][fn]['file'], None
         elif fn in spec['externals']:
             text, extra, kind, cfile, decl = spec['externals'][fn]['text'], '', 'external', None, spec['externals'][fn]['decl']
+        elif fn in spec['pins']:
+            r = pinned(fn, spec['pins'][fn])
+            text, extra, kind = r['text'], r['extra'], r['kind']
+            cfile = r.get('file')
+            decl = r.get('decl')
         elif fn in reg:
             r = reg[fn]
             text, extra, kind = r['text'], r['extra'], r['kind']
@@ -393,18 +419,40 @@ def build_unit(spec, tier, workdir, repo_root=None, variant_defs=(), extra_defs=
     if rc != 0:
         raise Undecided('goto-cc failed (rc=%s): %s' % (rc, (err or out)[-3000:]))
     gb1 = os.path.join(workdir, 'b.gb')
-    cmd2 = ['goto-instrument'] + (['--dfcc', entry] if spec['instrument'] == 'dfcc' else [])
-    if enforce:
-        cmd2 += ['--enforce-contract', enforce]
-    for g in replace:
-        cmd2 += ['--replace-call-with-contract', g]
-    if spec['loops'] or spec['mode'] == 'proof':
-        cmd2 += ['--apply-loop-contracts']
-    cmd2 += [gb0, gb1]
-    rc, out, err, w2 = run(cmd2, 600, 12, cwd=workdir)
-    if rc != 0:
-        raise Undecided('goto-instrument failed (rc=%s): %s' % (rc, (err + out)[-3000:]))
-    return dict(gb=gb1, cmds=[cmd1, cmd2], inserted=inserted, linemap=linemap, entry=entry, instr_log=out + err,
+    cmds = [cmd1]
+    w2 = 0.0
+    out = err = ''
+    if spec['instrument'] == 'dfcc':
+        cmd2 = ['goto-instrument', '--dfcc', entry]
+        if enforce:
+            cmd2 += ['--enforce-contract', enforce]
+        for g in replace:
+            cmd2 += ['--replace-call-with-contract', g]
+        if spec['loops'] or spec['mode'] == 'proof':
+            cmd2 += ['--apply-loop-contracts']
+        cmd2 += [gb0, gb1]
+        steps = [cmd2]
+    else:
+        # legacy instrumentation: loop contracts first (the frame instrumentation of --enforce-contract
+        # needs a loop-free body), then replace/enforce
+        gbm = os.path.join(workdir, 'm.gb')
+        steps = [['goto-instrument', '--apply-loop-contracts', gb0, gbm]]
+        cmd2 = ['goto-instrument']
+        if enforce:
+            cmd2 += ['--enforce-contract', enforce]
+        for g in replace:
+            cmd2 += ['--replace-call-with-contract', g]
+        cmd2 += [gbm, gb1]
+        steps.append(cmd2)
+    for c in steps:
+        rc, o, e, wx = run(c, 600, 12, cwd=workdir)
+        w2 += wx
+        out += o
+        err += e
+        cmds.append(c)
+        if rc != 0:
+            raise Undecided('goto-instrument failed (rc=%s): %s' % (rc, (e + o)[-3000:]))
+    return dict(gb=gb1, cmds=cmds, inserted=inserted, linemap=linemap, entry=entry, instr_log=out + err,
                 build_s=w + w2)
 
 
